@@ -207,7 +207,7 @@ namespace {
         int64_t kinds_mask = ctx.params.set("c08.os_mask", r.chance(1, 2) ? (int64_t) r.below(64) : 0);
         S.initial = ctx.params.set("c08.initial", binary ? 1 : r.range(0, 3));
         if (!ctx.program_from_replay) ctx.program = gen_counting(ctx, nparties, binary);
-        sim_config sc = draw_sim_config(ctx, 60000, FAULT_STALL | FAULT_CLOCKJUMP | FAULT_TRYFAIL);
+        sim_config sc = draw_sim_config(ctx, 60000, FAULT_STALL | FAULT_CLOCKJUMP | FAULT_TRYFAIL | FAULT_SPURIOUS);
         begin_sim(ctx, sc);
         g_dump_hook = +[]() -> std::string {
             return pk::dump() +
